@@ -63,13 +63,19 @@ def _data_part(card_text):
 _NONINT = re.compile(r"(?<![\w.])[+-]?(\d+\.\d*|\.\d+|\d+\.?\d*[eEdD][+-]?\d+|\d+\.?\d*[+-]\d+)(?![\w.])")
 
 
+def _value_error_through_parser(f):
+    """a ValueError (sub)class that crossed MCNP_Parser.parse: MCNP_Object.__init__ converts those on the unchanged
+    tree, so such a leak is never one of the known ones"""
+    return "ValueError" in (f.get("mro") or [f.get("cls")]) and "parse" in (f.get("stack") or [])
+
+
 def C13_int_conversion(case, params):
     """a number that is not an integer stands where MontePy converts with int(): ValueNode._convert_to_int lets the
     runtime's ValueError out (after the guarded parser call, so nothing converts it)"""
     f = _f(case)
     if f.get("kind") != "leak" or f.get("cls") != "ValueError" or "_convert_to_int" not in (f.get("stack") or []):
         return False
-    if not (f.get("msg") or "").startswith("invalid literal for int()"):
+    if not (f.get("msg") or "").startswith("invalid literal for int()") or _value_error_through_parser(f):
         return False
     card = _matching(case, f)
     if card is None:
@@ -122,6 +128,8 @@ def C13_constructor_raw_exception(case, params):
     if f.get("kind") != "leak" or f.get("cls") not in RAW_CLASSES:
         return False
     if "_convert_to_int" in (f.get("stack") or []) and (f.get("msg") or "").startswith("invalid literal for int()"):
+        return False
+    if _value_error_through_parser(f):
         return False
     where = f.get("where") or ""
     in_scope = where.startswith(RAW_FILES) or ("enum.py" in where and "is not a valid" in (f.get("msg") or ""))
